@@ -220,7 +220,17 @@ def audit(mod, names):
 def prove(prop_id, mod, tier):
     """Returns dict(ok, obligations, discharged, failed=[...], log, axioms)"""
     names, examples = theorems_of(mod, prop_id + "_")
-    ok, out = lake_build([mod, "hopmodel"])
+    # the driver first and on its own: when it does not build (a model or driver file is broken, or a
+    # generated file it imports changed shape) the stale binary must not answer for the model
+    dok, dout = lake_build(["hopmodel"])
+    if not dok:
+        try:
+            os.remove(HOPMODEL)
+        except FileNotFoundError:
+            pass
+    ok, out = lake_build([mod])
+    if not dok:
+        ok, out = False, dout + "\n" + out
     res = {"module": mod, "theorems": names, "examples": examples, "obligations": len(names) + examples,
            "discharged": 0, "failed": [], "log": "", "axioms": {}}
     if not ok:
